@@ -4,6 +4,30 @@ from ..core import zlist
 from ..layouts import zoo
 from ..nd import factorizations, ravel, prod, lane_positions, result_shape
 from .c04 import tok_key, key_of, NANK
+from .c02 import pivot_tokens, parse_log
+from ..codec import f64_bits, bits_f64
+from fractions import Fraction
+import math
+
+NAN64 = 0x7FF8000000000000
+
+
+def mk_qsk_case(et, strat, shape, vals, q, lay, axis, mode):
+    """vals: None or number; et in {f64, oi32}"""
+    if et == "f64":
+        toks = [str(NAN64) if v is None else str(f64_bits(float(v))) for v in vals]
+        model = [int(t) for t in toks]
+        g = str(f64_bits(777.5))
+        gm = f64_bits(777.5)
+    else:
+        toks = ["N" if v is None else str(int(v)) for v in vals]
+        model = [NANK if v is None else int(v) for v in vals]
+        g, gm = "7777", 7777
+    buf_t = lay.embed(toks, lambda k: g)
+    buf_m = lay.embed(model, lambda k: gm)
+    line = "%s %d | %s | %d %s | %d | 1 %d | %s" % (et, strat, lay.tokens(), len(buf_t), " ".join(buf_t), axis, f64_bits(q), pivot_tokens(mode))
+    return Case("qskipnan", " ".join(line.split()), et=et, strat=strat, shape=list(shape), axis=axis, vals=list(vals), q=q,
+                buf_m=buf_m, cells=lay.cells(), layout=lay.describe(), mode=mode, keys=model)
 
 ETS = ["f64", "oi32", "f32", "ou64"]
 
@@ -38,12 +62,15 @@ class Rd:
 
 class C14(Prop):
     id = "C14"
-    imports = ["Run.RunNan"]
+    imports = ["Run.RunNan", "Run.RunQuant"]
     rule = ("all 2^n missing-value patterns for n <= 6 (none, all, first-only, last-only included) over distinct and "
             "duplicated values, arranged in 1-3-D shapes, EVERY axis (contiguous or not), through the layout zoo, element "
             "types f64/f32/Option<i32>/Option<u64>; whole-array forms (min/max/argmin/argmax_skipnan, fold, indexed fold, "
-            "visit: the visited (index, value) lists are collected) and per-axis forms (fold_axis_skipnan, "
-            "map_axis_skipnan_mut: per-lane contents and the whole parent buffer). Non-trivial: some but not all values missing.")
+            "visit: the visited (index, value) lists are collected), per-axis forms (fold_axis_skipnan, "
+            "map_axis_skipnan_mut: per-lane contents and the whole parent buffer) and quantile_axis_skipnan_mut (f64 and "
+            "Option<i32>, all five strategies, q incl. boundary values, every axis, zoo: values, whole buffer and pivot count "
+            "against the model = NaN removal followed by the lane quantile kernel on the returned prefix). Non-trivial: some "
+            "but not all values missing.")
     exhaustive_note = {"quick": "all NaN patterns of length <= 6 x shapes x every axis", "thorough": "all NaN patterns of length <= 8 x shapes x every axis x 3 layouts"}
     correspondences = {"skipnan": "corr:C14/whole-array/min+max+argmin+argmax+indexed-fold", "skipnan_axis": "corr:C14/per-axis/lane-contents+parent-buffer"}
     trusted_base = ["ndarray fold/for_each visit every element exactly once (order = oracle, observed and replayed); indexed_iter, fold_axis and map_axis_mut lane order are logical"]
@@ -69,6 +96,15 @@ class C14(Prop):
                 yield mk_case("skipnan", et, shape, vals, lay)
                 for axis in range(len(shape)):
                     yield mk_case("skipnan_axis", et, shape, vals, lays[(k + axis) % len(lays)], axis)
+        for _ in range(400 if tier == "quick" else 4000):
+            nd = rng.range(1, 3)
+            shape = [rng.range(1, 5) for _ in range(nd)]
+            n = prod(shape)
+            et = rng.choice(["f64", "oi32"])
+            vals = [None if rng.chance(1, 3) else (rng.range(-6, 6) if et == "oi32" else rng.range(-6, 6) * 0.25) for _ in range(n)]
+            axis = rng.below(nd)
+            q = rng.choice([0.0, 1.0, 0.5, 0.25, 0.75, 1.0 / 3.0, 0.9, 0.49999999999999994, rng.below(1000) / 1000.0])
+            yield mk_qsk_case(et, rng.below(5), shape, vals, q, rng.choice(zoo(shape, rng, 4)), axis, ("P", rng.below(3)))
         for _ in range(150 if tier == "quick" else 2000):
             nd = rng.range(1, 3)
             shape = [rng.range(1, 5) for _ in range(nd)]
@@ -84,6 +120,26 @@ class C14(Prop):
     def parse(self, case):
         et = case.et
         secs = [s.split() for s in case.raw.split("|")]
+        if case.routine == "qskipnan":
+            head = secs[0]
+            if head[0] == "OK":
+                rshape = [int(x) for x in head[2:]]
+                vt = secs[1][1:]
+                post_t = secs[2][1:]
+                plog = parse_log(secs[3])
+                if et == "f64":
+                    cn = lambda b: NAN64 if ((b >> 52) & 0x7FF == 0x7FF and b & ((1 << 52) - 1)) else b
+                    vals_m = [cn(int(t)) for t in vt]
+                    post_m = [cn(int(t)) for t in post_t]
+                else:
+                    vals_m = [NANK if t == "N" else int(t) for t in vt]
+                    post_m = [NANK if t == "N" else int(t) for t in post_t]
+                case.obs = ([0, len(plog)] + vals_m + post_m, dict(tag="OK", rshape=rshape, vals=vals_m, post=post_m))
+            elif head[0] == "ERR":
+                case.obs = ([1] if head[1] == "E" else [2, int(head[2])], dict(tag="ERR"))
+            else:
+                case.obs = ([3], dict(tag="PANIC"))
+            return
         if case.routine == "skipnan":
             assert secs[0][0] == "OK"
             shape = [int(x) for x in secs[0][2:]]
@@ -137,7 +193,63 @@ class C14(Prop):
             flat += post
             case.obs = (flat, st)
 
+    def _qsk_oracle(self, case):
+        flat, st = case.obs
+        N = case.shape[case.axis]
+        if N == 0:
+            return [] if st["tag"] == "ERR" else ["error: zero-length axis must give EmptyInput"]
+        if st["tag"] != "OK":
+            return ["panic: quantile_axis_skipnan_mut outcome %s on valid arguments" % st["tag"]]
+        out = []
+        lanes = lane_positions(case.shape, case.axis)
+        if st["rshape"] != result_shape(case.shape, case.axis) or len(st["vals"]) != len(lanes):
+            return ["shape: result shape %s" % st["rshape"]]
+        et = case.et
+        val = (lambda m: None if m == NAN64 else Fraction(bits_f64(m))) if et == "f64" else (lambda m: None if m == NANK else Fraction(m))
+        names = ["Higher", "Lower", "Nearest", "Midpoint", "Linear"]
+        for ln, got in zip(lanes, st["vals"]):
+            live = sorted(val(case.keys[p]) for p in ln if val(case.keys[p]) is not None)
+            g = val(got)
+            if not live:
+                if g is not None:
+                    out.append("empty-lane: a lane with nothing left must give the missing value, got %s" % g)
+                continue
+            if g is None:
+                out.append("value: missing value returned for a lane with %d remaining elements" % len(live))
+                continue
+            n = len(live)
+            x = case.q * float(n - 1)
+            lo, hi = math.floor(x), math.ceil(x)
+            fr = Fraction(x) - math.trunc(x)
+            a, b = live[lo], live[hi]
+            nm = names[case.strat]
+            if nm == "Lower":
+                ok = g == a
+            elif nm == "Higher":
+                ok = g == b
+            elif nm == "Nearest":
+                ok = g == (a if fr < Fraction(1, 2) else b)
+            else:
+                exact = (a + b) / 2 if nm == "Midpoint" else a + fr * (b - a)
+                tol = 1 if et != "f64" else max(abs(a), abs(b), 1) * Fraction(8, 2 ** 52)
+                ok = (a - (0 if et != "f64" else tol) <= g <= b + (0 if et != "f64" else tol)) and (abs(g - exact) < tol if et != "f64" else abs(g - exact) <= tol)
+            if not ok:
+                out.append("value: %s quantile q=%r of the lane without its missing values %s is %s" % (nm, case.q, [str(v) for v in live[:8]], g))
+                break
+        post = st["post"]
+        for ln in lanes:
+            cs = [case.cells[p] for p in ln]
+            if sorted(post[c] for c in cs) != sorted(case.buf_m[c] for c in cs):
+                out.append("lane-multiset: a lane no longer holds its multiset (elements moved between lanes)")
+                break
+        cset = set(case.cells)
+        if any(post[c] != case.buf_m[c] for c in range(len(post)) if c not in cset):
+            out.append("frame: a cell outside the view was modified")
+        return out
+
     def oracle(self, case):
+        if case.routine == "qskipnan":
+            return self._qsk_oracle(case)
         flat, st = case.obs
         keys = case.keys
         out = []
@@ -195,9 +307,19 @@ class C14(Prop):
 
     def chk_term(self, case):
         flat, _ = case.obs
+        if case.routine == "qskipnan":
+            return "chkq (%s) %s" % (self.model_term(case), zlist(flat))
         return "chkl (%s) %s" % (self.model_term(case), zlist(flat))
 
     def model_term(self, case):
+        if case.routine == "qskipnan":
+            lanes = lane_positions(case.shape, case.axis)
+            ll = "[" + ";".join("[" + ";".join("%d%%nat" % case.cells[p] for p in ln) + "]" for ln in lanes) + "]"
+            N = case.shape[case.axis]
+            pm = "(PPolicy %d)" % case.mode[1]
+            if case.et == "f64":
+                return "m_qskipnan_f64 %d %d %d %s %s %s" % (case.strat, f64_bits(case.q), N, zlist(case.buf_m), ll, pm)
+            return "m_qskipnan_int true 32 %d %d %d %s %s %s" % (case.strat, f64_bits(case.q), N, zlist(case.buf_m), ll, pm)
         if case.routine == "skipnan":
             trav = case.obs[1]["folded"] if case.obs else case.keys
             return "m_skipnan %s %s" % (zlist(case.keys), zlist(trav))
@@ -209,7 +331,7 @@ class C14(Prop):
         return any(k == NANK for k in case.keys) and any(k != NANK for k in case.keys)
 
     def key(self, case):
-        return (case.routine, case.et, tuple(case.shape), tuple(case.keys), case.layout, case.__dict__.get("axis"))
+        return (case.routine, case.et, tuple(case.shape), tuple(case.keys), case.layout, case.__dict__.get("axis"), case.__dict__.get("q"), case.__dict__.get("strat"))
 
 
 PROP = C14()
